@@ -49,16 +49,24 @@ NAMING = {'key_geo': 'market', 'key_date': 'day', 'key_period': 'phase', 'key_gr
           'key_cost': 'spend', 'group_control': 7, 'group_treatment': 3, 'period_pre': 5, 'period_test': 6, 'period_cooldown': 9}
 
 
+# the same names with period labels that are not in chronological order (the pre-period has the largest label)
+NAMING_B = dict(NAMING, period_pre=8, period_test=3, period_cooldown=5)
+
+
+def naming(spec):
+  return NAMING_B if spec.get('seed', 0) % 2 else NAMING
+
+
 def fit_kwargs(spec):
   """Keyword arguments of fit() for a specification with custom column names and labels."""
-  return dict(NAMING) if spec.get('custom_names') else {}
+  return dict(naming(spec)) if spec.get('custom_names') else {}
 
 
 def apply_names(spec, df):
   """Renames the columns / index and relabels groups and periods of a default-named frame."""
   if not spec.get('custom_names'):
     return df
-  n = NAMING
+  n = naming(spec)
   df = df.copy()
   df['group'] = df['group'].map({1: n['group_control'], 2: n['group_treatment']}).fillna(df['group']).astype(int)
   df['period'] = df['period'].map({0: n['period_pre'], 1: n['period_test'], 2: n['period_cooldown']}).fillna(df['period']).astype(int)
